@@ -195,7 +195,7 @@ MCSLock::UnlockS(  //
   }
 
   auto *next = std::bit_cast<MCSLock *>(next_ptr);
-  if ((next->lock_.fetch_sub(kSLock, kRelease) & kSMask) == kNoLocks) {
+  if ((next->lock_.fetch_sub(kSLock, kRelease) & kLockMask) == kSLock) {
     tls_node_.reset(qnode);
   }
 }
